@@ -445,6 +445,9 @@ func (p *Path) hashUF(name string, in Slice, n int, real func([]byte) []byte) []
 		out[i] = tb.Extract(app, 8*(n-i)-1, 8*(n-i-1))
 	}
 	p.extra["hash:"+key] = append(apps, hashApp{arg: arg, res: app, out: append([]Value{}, out...)})
+	// recorded like a UF application: the native replay answers this hash call with the model's digest
+	argBytes := append([]*Term{tb.BV(uint64(len(in)&0xff), 8)}, termsOf(in)...)
+	p.inputs = append(p.inputs, InputRec{Kind: "uf", Label: "hash:" + name, Terms: termsOf(Slice(out)), Args: argBytes})
 	return out
 }
 
